@@ -439,4 +439,55 @@ theorem mem_found_build (ext : Ext) (L : List CosRule) (host : Bytes) (hwf : Cos
     subst this
     exact List.mem_map.2 ⟨(n, r'), hx, rfl⟩
 
+/-- The generic pass of `CosmeticEngine.Match`. -/
+def genericPass (ext : Ext) (t : CosTable) (host : Bytes) (includeGenericCSS : Bool) : List CosRule :=
+  if includeGenericCSS then
+    t.generic.filter (fun r => !t.isWhitelisted ext host r && cosMatches ext r host) else []
+
+theorem matchHost_eq (ext : Ext) (t : CosTable) (host : Bytes) (js gen : Bool) :
+    t.matchHost ext host true js gen =
+      (((genericPass ext t host gen ++ (t.findByHostname ext host).map (·.2)).filter (fun r => cosIsGeneric r)).map (·.content),
+       ((genericPass ext t host gen ++ (t.findByHostname ext host).map (·.2)).filter (fun r => !cosIsGeneric r)).map (·.content)) := rfl
+
+theorem mem_genericPass (ext : Ext) (L : List CosRule) (host : Bytes) (gen : Bool) (r : CosRule) :
+    r ∈ genericPass ext (CosTable.build L) host gen ↔
+      gen = true ∧ r ∈ L ∧ cosIsGeneric r = true ∧ cosApplicable ext L host r = true := by
+  unfold genericPass
+  cases gen with
+  | false => simp
+  | true =>
+    rw [if_pos rfl, List.mem_filter, mem_generic_build, cosApplicable_iff]
+    constructor
+    · rintro ⟨⟨h1, h2, h3⟩, h4⟩
+      simp only [Bool.and_eq_true, Bool.not_eq_true'] at h4
+      exact ⟨rfl, h1, h3, h2, h4.2, h4.1⟩
+    · rintro ⟨_, h1, h3, h2, h4, h5⟩
+      refine ⟨⟨h1, h2, h3⟩, ?_⟩
+      simp only [Bool.and_eq_true, Bool.not_eq_true']
+      exact ⟨h5, h4⟩
+
+theorem mem_all_generic (ext : Ext) (L : List CosRule) (host : Bytes) (hwf : CosDomainsWF L) (gen : Bool) (r : CosRule) :
+    r ∈ (genericPass ext (CosTable.build L) host gen ++
+          ((CosTable.build L).findByHostname ext host).map (·.2)).filter (fun r => cosIsGeneric r) ↔
+      gen = true ∧ r ∈ L ∧ cosIsGeneric r = true ∧ cosApplicable ext L host r = true := by
+  rw [List.mem_filter, List.mem_append, mem_genericPass, mem_found_build ext L host hwf]
+  constructor
+  · rintro ⟨h | h, hg⟩
+    · exact h
+    · rw [h.2.1] at hg; cases hg
+  · rintro ⟨h1, h2, h3, h4⟩
+    exact ⟨Or.inl ⟨h1, h2, h3, h4⟩, h3⟩
+
+theorem mem_all_specific (ext : Ext) (L : List CosRule) (host : Bytes) (hwf : CosDomainsWF L) (gen : Bool) (r : CosRule) :
+    r ∈ (genericPass ext (CosTable.build L) host gen ++
+          ((CosTable.build L).findByHostname ext host).map (·.2)).filter (fun r => !cosIsGeneric r) ↔
+      r ∈ L ∧ cosIsGeneric r = false ∧ cosApplicable ext L host r = true := by
+  rw [List.mem_filter, List.mem_append, mem_genericPass, mem_found_build ext L host hwf]
+  constructor
+  · rintro ⟨h | h, hg⟩
+    · rw [h.2.2.1] at hg; cases hg
+    · exact h
+  · rintro ⟨h1, h2, h3⟩
+    exact ⟨Or.inr ⟨h1, h2, h3⟩, by rw [h2]; rfl⟩
+
 end UF.B
